@@ -11,45 +11,57 @@
 (* HamtSchedOps again by TraceSched.                                       *)
 (***************************************************************************)
 EXTENDS HamtSchedOps, TLC, Json
-CONSTANTS TableFile, NG
+CONSTANTS TableFile, NG,
+          LG      \* TRUE: the readers also park inside every load (HamtSchedOps, "load gates")
 Tab == ndJsonDeserialize(TableFile)[1]
 S == Tab.S
 DG == Tab.digits
 OpSeq == Tab.ops          \* the operation alphabet, a sequence of [o, n]
 Warms == Tab.warms        \* the warm-up alternatives, each a sequence of indices into OpSeq
-VARIABLES ops, warm, stk, cache, memo, acc, hist
-vars == <<ops, warm, stk, cache, memo, acc, hist>>
+Misses == Tab.misses      \* the alternatives for the set of unavailable blocks, each a sequence of block classes
+SetOf(q) == {q[k] : k \in 1 .. Len(q)}
+VARIABLES ops, warm, miss, stk, cache, memo, acc, hist
+vars == <<ops, warm, miss, stk, cache, memo, acc, hist>>
+MSOf(i) == SetOf(Misses[i]) \cup (IF LG THEN {0} ELSE {})
+MS == MSOf(miss)
 Gs == 1 .. NG
 
 \* the shared state after the warm-up operations have run alone, one after the other
-RECURSIVE Warmed(_, _, _)
-Warmed(w, c, m) == IF w = <<>> THEN [cache |-> c, memo |-> m]
-                   ELSE LET r == RunAlone(S, DG, StackOf(OpSeq[Head(w)]), c, m, <<>>, NoAcc) IN Warmed(Tail(w), r.cache, r.memo)
+RECURSIVE Warmed(_, _, _, _)
+Warmed(M, w, c, m) == IF w = <<>> THEN [cache |-> c, memo |-> m]
+                      ELSE LET r == RunAlone(S, DG, M, StackOf(OpSeq[Head(w)]), c, m, <<>>, NoAcc) IN Warmed(M, Tail(w), r.cache, r.memo)
 
 Init == /\ ops \in {f \in [Gs -> 1 .. Len(OpSeq)] : \A g \in 1 .. NG - 1 : f[g] <= f[g + 1]}   \* readers are interchangeable
         /\ warm \in 1 .. Len(Warms)
+        /\ miss \in 1 .. Len(Misses)
         /\ stk = [g \in Gs |-> StackOf(OpSeq[ops[g]])]
-        /\ cache = Warmed(Warms[warm], {}, {}).cache
-        /\ memo = Warmed(Warms[warm], {}, {}).memo
+        /\ cache = Warmed(SetOf(Misses[miss]), Warms[warm], {}, {}).cache
+        /\ memo = Warmed(SetOf(Misses[miss]), Warms[warm], {}, {}).memo
         /\ acc = [g \in Gs |-> NoAcc]
         /\ hist = <<>>
 Step(g) == /\ stk[g] # <<>>
-           /\ LET r == Run(S, DG, stk[g], cache, memo, <<>>, acc[g]) IN
+           /\ LET r == Run(S, DG, MS, stk[g], cache, memo, <<>>, acc[g]) IN
               /\ stk' = [stk EXCEPT ![g] = r.stk]
               /\ cache' = r.cache /\ memo' = r.memo
               /\ acc' = [acc EXCEPT ![g] = r.acc]
               /\ hist' = Append(hist, g)
-           /\ UNCHANGED <<ops, warm>>
+           /\ UNCHANGED <<ops, warm, miss>>
 Done == \A g \in Gs : stk[g] = <<>>
 Next == \E g \in Gs : Step(g)      \* a complete behaviour ends (no successor) when every reader has ended
 Spec == Init /\ [][Next]_vars /\ WF_vars(Next)
 
 \* every reader, whatever the others do, ends with the answer it has alone
-Inv_C17_SchedAnswers == \A g \in Gs : stk[g] = <<>> => AnswerOK(S, DG, OpSeq[ops[g]], acc[g])
+Inv_C17_SchedAnswers == \A g \in Gs : stk[g] = <<>> => AnswerOK(S, DG, MS, OpSeq[ops[g]], acc[g])
+\* an unavailable block is never cached and nothing above it is ever counted
+Inv_C12_SchedNoCacheOfMissing == \A c \in cache : S[c].c \notin MS
+\* parking inside the loads only refines the schedules: the shared state a reader leaves behind and its answer are
+\* those of the same reader running alone from the same state
+Inv_X_LoadGatesRefine == \A g \in Gs : stk[g] = <<>> => acc[g] = Alone(S, DG, SetOf(Misses[miss]), OpSeq[ops[g]])
 \* the memoised state only ever grows and is right: a cached child is a shard of the table, a memoised count a shard
 Inv_C17_SchedMemo == cache \subseteq (2 .. Len(S)) /\ memo \subseteq (1 .. Len(S))
 \* a warm node needs no loads: after the length warm-up every shard is cached and counted
-Inv_X_WarmIsQuiet == (Warmed(Warms[warm], {}, {}).memo = 1 .. Len(S)) => (cache = 2 .. Len(S) /\ memo = 1 .. Len(S))
+Inv_X_WarmIsQuiet == (Warmed(MS, Warms[warm], {}, {}).memo = 1 .. Len(S)) => (cache = 2 .. Len(S) /\ memo = 1 .. Len(S))
 Terminates == <>Done
-Export == Done => PrintT(<<"CASE", ToJson([ops |-> [g \in Gs |-> OpSeq[ops[g]]], warm |-> [k \in 1 .. Len(Warms[warm]) |-> OpSeq[Warms[warm][k]]], sched |-> hist])>>)
+Export == Done => PrintT(<<"CASE", ToJson([ops |-> [g \in Gs |-> OpSeq[ops[g]]], warm |-> [k \in 1 .. Len(Warms[warm]) |-> OpSeq[Warms[warm][k]]],
+                                               miss |-> Misses[miss], lg |-> LG, sched |-> hist])>>)
 =============================================================================
